@@ -52,7 +52,7 @@ def run_a(chk):
     grid, info = hashfn.grid_ops(chk.rng, chk.tier)
     chk.extra["grid"] = info
     run_on(chk, exes, m_exe, grid, "boundary_grid")
-    nrand = 100000 if chk.tier == "quick" else 1200000
+    nrand = 200000 if chk.tier == "quick" else 1200000
     run_on(chk, exes, m_exe, hashfn.random_ops(chk.rng, nrand), "random_pairs")
     if chk.tier == "thorough":
         ms = hashfn.float_grid(chk.rng, 8, lo=1)
@@ -90,6 +90,13 @@ def run_a(chk):
                 f["what"] = w.replace("op %d" % i, "op 0", 1)
             except (ValueError, IndexError):
                 pass
+    seen, uniq = set(), []
+    for f in chk.oracle_failures:
+        key = (f.get("area"), tuple(f["script"]))
+        if key not in seen:
+            seen.add(key)
+            uniq.append(f)
+    chk.oracle_failures[:] = uniq
 
 
 def run(chk):
